@@ -32,6 +32,7 @@ func genFunc(w *World, fs *FuncSpec) (*Gen, error) {
 		return nil, fmt.Errorf("contract drift: function %s not found in package %s (contract at %s:%d)", fs.Name, fs.Pkg, strings.TrimPrefix(fs.File, repoRoot+"/"), fs.Line)
 	}
 	g := newGen(w, fn, fs, key, fs.Mode == "bv")
+	g.abstractMod = fs.AbstractMod
 	func() {
 		defer func() {
 			if r := recover(); r != nil {
@@ -72,6 +73,8 @@ func (g *Gen) addAxioms() {
 		pkg := g.W.typesPkgs[ax.pkg]
 		env := g.specEnv(&State{reach: "true", locals: nil, heap: map[string]string{}, ghosts: map[string]Val{}, alloc: "0", pend: map[string]int{}}, nil)
 		env.calleePkg = pkg
+		env.triggers = ax.c.Triggers
+		env.noRangeGuards = true
 		g.axioms = append(g.axioms, env.evalBool(ax.c.E))
 	}
 }
@@ -412,8 +415,12 @@ func runCheck(cmd, prop, tier string, seed int, only, dump string, verbose bool)
 		sort.Strings(claimed)
 		os.MkdirAll(filepath.Join(verifRoot, "claims"), 0o755)
 		data, _ := json.MarshalIndent(map[string]any{"property": prop, "claimed": claimed}, "", " ")
-		os.WriteFile(filepath.Join(verifRoot, "claims", prop+".json"), data, 0o644)
-		fmt.Printf("claimed %d of %d clauses for %s\n", len(claimed), len(order), prop)
+		if only == "" {
+			os.WriteFile(filepath.Join(verifRoot, "claims", prop+".json"), data, 0o644)
+			fmt.Printf("claimed %d of %d clauses for %s\n", len(claimed), len(order), prop)
+		} else {
+			fmt.Printf("(dry run, -func given) would claim %d of %d clauses for %s\n", len(claimed), len(order), prop)
+		}
 		shown := 0
 		for _, k := range order {
 			if clauses[k].cs.Status != "discharged" {
